@@ -36,6 +36,8 @@ type Req struct {
 
 type Case struct {
 	Store        string // memory | vk
+	Park         bool   `json:",omitempty"` // schedule policy: the first concurrent request parks inside its origin handler until the others are done
+	ParkSerial   bool   `json:",omitempty"` // ... and the others are served one after the other
 	MaxBytes     uint
 	StoreHeaders bool
 	CacheControl bool
@@ -368,13 +370,45 @@ func check(c Case) vk.Verdict {
 			s.Spawn(g, func() { resps[g] = w.do(r) })
 		}
 		pi := 0
-		res := s.Run(len(c.Conc), func(ready []int) int {
+		nextPick := func() int {
 			p := 0
 			if pi < len(c.Picks) {
 				p = c.Picks[pi]
 			}
 			pi++
 			return p
+		}
+		parkedAtOrigin, seenEvents := false, 0
+		res := s.Run(len(c.Conc), func(ready []int) int {
+			if !c.Park {
+				return nextPick()
+			}
+			// policy "park": the first request runs until it is inside its origin handler, stays there while the
+			// others are served (in the order the picks say), and completes last
+			for ; seenEvents < len(s.Trace); seenEvents++ {
+				if s.Trace[seenEvents] == "0@origin<" {
+					parkedAtOrigin = true
+				}
+			}
+			idx0 := -1
+			var others []int
+			for i, g := range ready {
+				if g == 0 {
+					idx0 = i
+				} else {
+					others = append(others, i)
+				}
+			}
+			if idx0 >= 0 && (!parkedAtOrigin || len(others) == 0) {
+				return idx0
+			}
+			if len(others) == 0 {
+				return 0
+			}
+			if c.ParkSerial {
+				return others[0] // one after the other
+			}
+			return others[nextPick()%len(others)]
 		})
 		w.sched = nil
 		if w.st != nil {
@@ -470,6 +504,24 @@ func genReq(t *rapid.T, c Case) Req {
 	return r
 }
 
+// genPicks draws a schedule: either a fine-grained one (a fresh choice at every step) or one made of stretches (one
+// task keeps running for 1-15 steps), which reaches "A parks in its handler while B and C run to completion"
+func genPicks(t *rapid.T, maxIdx int) []int {
+	if rapid.Bool().Draw(t, "finegrained") {
+		return rapid.SliceOfN(rapid.IntRange(0, maxIdx), 0, 60).Draw(t, "picks")
+	}
+	var out []int
+	n := rapid.IntRange(1, 10).Draw(t, "stretches")
+	for i := 0; i < n; i++ {
+		who := rapid.IntRange(0, maxIdx).Draw(t, "who")
+		k := rapid.IntRange(1, 15).Draw(t, "steps")
+		for j := 0; j < k; j++ {
+			out = append(out, who)
+		}
+	}
+	return out
+}
+
 func genCase(t *rapid.T, conc bool) Case {
 	c := Case{Store: rapid.SampledFrom([]string{"memory", "vk", "vk-retain"}).Draw(t, "store"), MaxBytes: rapid.SampledFrom([]uint{0, 50, 100, 200, 400}).Draw(t, "maxbytes"),
 		StoreHeaders: rapid.Bool().Draw(t, "storehdr"), CacheControl: rapid.Bool().Draw(t, "cachecontrol"), CustomKey: rapid.Bool().Draw(t, "customkey"),
@@ -487,6 +539,33 @@ func genCase(t *rapid.T, conc bool) Case {
 	for i := 0; i < n; i++ {
 		c.Pre = append(c.Pre, genReq(t, c))
 	}
+	if conc && rapid.IntRange(0, 2).Draw(t, "refreshrace") == 0 {
+		// biased shape: a no-cache refresh of a cached key runs while other requests fill a small cache (evictions and
+		// new entries happen between the refresh's lookup and its store); an external store so that the bytes held are
+		// observable
+		c.Store, c.MaxBytes, c.UseNext = rapid.SampledFrom([]string{"vk", "vk-retain"}).Draw(t, "rstore"), rapid.SampledFrom([]uint{50, 100}).Draw(t, "rmax"), false
+		c.Pre = nil
+		keys := [][2]string{{"/a", "1"}, {"/b", "1"}, {"/c", "1"}, {"/a", "2"}, {"/b", "2"}, {"/c", "2"}}
+		np := rapid.IntRange(1, 3).Draw(t, "rpre")
+		for i := 0; i < np; i++ {
+			c.Pre = append(c.Pre, Req{Method: "GET", Path: keys[i][0], V: keys[i][1]})
+		}
+		victim := rapid.IntRange(0, np-1).Draw(t, "victim")
+		c.Conc = append(c.Conc, Req{Method: "GET", Path: keys[victim][0], V: keys[victim][1], CC: "no-cache"})
+		no := rapid.IntRange(2, 4).Draw(t, "rothers")
+		for i := 0; i < no; i++ {
+			k := keys[rapid.IntRange(0, len(keys)-1).Draw(t, "rk")]
+			c.Conc = append(c.Conc, Req{Method: "GET", Path: k[0], V: k[1]})
+		}
+		c.Picks = genPicks(t, 4)
+		c.Park = rapid.Bool().Draw(t, "park")
+		c.ParkSerial = c.Park && rapid.Bool().Draw(t, "parkserial")
+		npost := rapid.IntRange(2, 7).Draw(t, "npost")
+		for i := 0; i < npost; i++ {
+			c.Post = append(c.Post, genReq(t, c))
+		}
+		return c
+	}
 	if conc {
 		ng := rapid.IntRange(2, 4).Draw(t, "ng")
 		for i := 0; i < ng; i++ {
@@ -496,7 +575,9 @@ func genCase(t *rapid.T, conc bool) Case {
 			}
 			c.Conc = append(c.Conc, r)
 		}
-		c.Picks = rapid.SliceOfN(rapid.IntRange(0, 3), 0, 60).Draw(t, "picks")
+		c.Picks = genPicks(t, 3)
+		c.Park = rapid.IntRange(0, 2).Draw(t, "park") == 0
+		c.ParkSerial = c.Park && rapid.Bool().Draw(t, "parkserial")
 		np := rapid.IntRange(2, 7).Draw(t, "npost")
 		for i := 0; i < np; i++ {
 			c.Post = append(c.Post, genReq(t, c))
@@ -508,7 +589,7 @@ func genCase(t *rapid.T, conc bool) Case {
 var propSeq = vk.Register(&vk.Prop[Case]{Property: property, Name: "history", Check: check, Classify: classify, Quick: 8000, Thorough: 12000,
 	Gen: func(t *rapid.T) Case { return genCase(t, false) }})
 
-var propConc = vk.Register(&vk.Prop[Case]{Property: property, Name: "schedule", Check: check, Classify: classify, Quick: 1200, Thorough: 3000,
+var propConc = vk.Register(&vk.Prop[Case]{Property: property, Name: "schedule", Check: check, Classify: classify, Quick: 3000, Thorough: 9000,
 	Gen: func(t *rapid.T) Case { return genCase(t, true) }})
 
 func TestHistory(t *testing.T)  { propSeq.Run(t) }
